@@ -324,4 +324,33 @@ inductive InDom : Ty → Val → Prop where
   | structCons {t : Ty} {ts : List Ty} {v : Val} {vs : List Val} :
       InDom t v → InDom (.struct ts) (.seq vs) → InDom (.struct (t :: ts)) (.seq (v :: vs))
 
+/-! ### encoder lookup (encode/encoder.go: `EncoderByKind`, `EncoderOf`, `GetSliceEltEncoder`) -/
+
+/-- the `reflect.Kind`s a caller can present (`invalid` = the kind of an untyped `nil`) -/
+inductive Kind where
+  | invalid | bool | int | int8 | int16 | int32 | int64 | uint | uint8 | uint16 | uint32 | uint64
+  | float32 | float64 | string | struct | ptr
+  | slice (elem : Kind)
+  deriving Repr, Inhabited, DecidableEq
+
+/-- the two errors of the lookup functions: `ErrUnknownEltType`, `ErrNotSlice` -/
+inductive LookupErr where
+  | unknownEltType | notSlice
+  deriving Repr, DecidableEq
+
+/-- `EncoderByKind(k)`: a `switch` with three cases and a `default` that fails. -/
+def encoderByKind : Kind → Except LookupErr Enc
+  | .uint16 => .ok .u16
+  | .uint32 => .ok .u32
+  | .uint64 => .ok .u64
+  | _ => .error .unknownEltType
+
+/-- `EncoderOf(e)`: `EncoderByKind(reflect.ValueOf(e).Kind())`; the argument is the kind of `e`. -/
+def encoderOf (k : Kind) : Except LookupErr Enc := encoderByKind k
+
+/-- `GetSliceEltEncoder(s)`: `ErrNotSlice` unless `s` is a slice, then by the element kind. -/
+def getSliceEltEncoder : Kind → Except LookupErr Enc
+  | .slice e => encoderByKind e
+  | _ => .error .notSlice
+
 end Encode
